@@ -1,7 +1,9 @@
 """ ngo lets you optimize your unground ASP encoding """
 
+import os
 from copy import deepcopy
 from typing import Iterable
+from typing import Any, Callable, Optional  # verification hook
 
 from clingo.ast import AST
 
@@ -16,6 +18,19 @@ from ngo.sum_aggregates import SumAggregator
 from ngo.symmetry import SymmetryTranslator
 from ngo.unused import UnusedTranslator
 from ngo.utils.ast import Predicate
+
+# verification hook (only active with NGO_VERIF=1 in the environment): an observer that is told
+# the program after every stage of optimize; it must not modify the program
+_verif_observer: Optional[Callable[[str, Any], None]] = None
+
+
+def _verif_install(callback: Optional[Callable[[str, Any], None]]) -> bool:
+    """install (or remove with None) the verification observer, ignored unless NGO_VERIF=1"""
+    global _verif_observer  # pylint: disable=global-statement
+    if os.environ.get("NGO_VERIF") == "1":
+        _verif_observer = callback
+        return True
+    return False
 
 
 # pylint: disable=too-many-arguments
@@ -56,48 +71,72 @@ def optimize(
     Please see [Traits](#traits) for a detailed description.
     """
     input_: list[AST] = preprocess(prg)
+    if _verif_observer is not None:
+        _verif_observer("preprocess", input_)
     while True:
         old = deepcopy(input_)
         ### call transformers
         if cleanup:
             clt = CleanupTranslator(input_predicates)
             input_ = clt.execute(input_)
+            if _verif_observer is not None:
+                _verif_observer("cleanup", input_)
 
         if unused:
             utr = UnusedTranslator(input_, input_predicates, output_predicates)
             input_ = utr.execute(input_)
+            if _verif_observer is not None:
+                _verif_observer("unused", input_)
 
         if duplication:
             ldt = LiteralDuplicationTranslator(input_, input_predicates)
             input_ = ldt.execute(input_)
+            if _verif_observer is not None:
+                _verif_observer("duplication", input_)
 
         if symmetry:
             trans = SymmetryTranslator(input_, input_predicates)
             input_ = trans.execute(input_)
+            if _verif_observer is not None:
+                _verif_observer("symmetry", input_)
 
         if minmax_chains:
             mma = MinMaxAggregator(input_, input_predicates)
             input_ = mma.execute(input_)
+            if _verif_observer is not None:
+                _verif_observer("minmax_chains", input_)
 
         if sum_chains:
             sagg = SumAggregator(input_, input_predicates)
             input_ = sagg.execute(input_)
+            if _verif_observer is not None:
+                _verif_observer("sum_chains", input_)
 
         if math:
             mmath = MathSimplification(input_)
             input_ = mmath.execute(input_)
+            if _verif_observer is not None:
+                _verif_observer("math", input_)
 
         if inline:
             inl = InlineTranslator(input_, input_predicates, output_predicates)
             input_ = inl.execute(input_)
+            if _verif_observer is not None:
+                _verif_observer("inline", input_)
 
         if projection:
             pro = ProjectionTranslator(input_, input_predicates)
             input_ = pro.execute(input_)
+            if _verif_observer is not None:
+                _verif_observer("projection", input_)
 
         input_ = exline_arithmetic(input_)
+        if _verif_observer is not None:
+            _verif_observer("iter_end", input_)
 
         if input_ == old:
             break
     input_ = postprocess(input_)
+    if _verif_observer is not None:
+        _verif_observer("postprocess", input_)
     return input_
